@@ -412,6 +412,20 @@ class _Inliner:
                 continue
             self.helpers[(cls.name if cls is not None else None, fn.name)] = fn
 
+    def _presimplify(self):
+        """helpers are brought closer to a single `return <expr>` before the call sites are looked at: local aliases of plain
+        attribute chains / total tests are substituted (normalize.N19), so that `name = k.value; return name in d and f(d[name])`
+        can be inlined where an expression is required"""
+        try:
+            from .normalize import _Norm
+            for g in list(self.helpers.values()) + list(self.nested.values()):
+                _Norm._propagate_chain_aliases(g)
+                n = _Norm()
+                n._fold_blocks(g, g)            # N1 / N5: single-use temporaries, `v = e; return v`
+                n._propagate_block_temps(g)
+        except Exception:       # pragma: no cover
+            pass
+
     @staticmethod
     def _eligible(fn) -> bool:
         a = fn.args
@@ -923,6 +937,7 @@ class _Inliner:
     def run(self) -> List[str]:
         if not self.helpers and not self.nested:
             return self.log
+        self._presimplify()
         for _ in range(4):
             self.changed = False
             for q, fn, cls, _c in _scopes(self.tree):
